@@ -180,7 +180,11 @@ def case_parse(acc, prefix, word, encoded):
             a_cands.add("")                 # the input had an empty authority: '//' may be kept
         for ac in a_cands:
             for p in {obs["path"], "" if obs["path"] == "/" and ac is not None else obs["path"]}:
+                if ac is None and p.startswith("//"):
+                    continue   # RFC 3986 3.3: without an authority the path cannot begin with '//' (it would parse as one)
                 cands.add(R.recompose(obs["scheme"] or None, ac, p, obs["query"] or None, obs["fragment"] or None))
+        if not cands:
+            cands.add(R.recompose(obs["scheme"] or None, "", obs["path"], obs["query"] or None, obs["fragment"] or None))
         if st not in cands and not (encoded and ra and (ra == "ood" or ra["port"] == "lenient")):
             if not encoded or obs["authority"] == (auth or ""):
                 problems.append("str(url) %r is not the re-composition %r" % (st, sorted(cands)))
